@@ -3,8 +3,10 @@ mod builder;
 mod calls;
 mod convert;
 mod docs;
+mod ffi;
 mod project;
 mod scale;
+mod serde_rt;
 mod shared;
 mod stdmeta;
 mod subsets;
@@ -32,6 +34,8 @@ fn main() {
         "shared" => shared::main(&args[1..]),
         "group" => group::main(&args[1..]),
         "scale" => scale::main(&args[1..]),
+        "ffi" => ffi::main(&args[1..]),
+        "serde" => serde_rt::main(&args[1..]),
         "convert" => convert::main(&args[1..]),
         "list" => list::main(&args[1..]),
         "builder" => builder::main(&args[1..]),
